@@ -85,10 +85,19 @@ ClearSlotSub(s, j) ==
   /\ UNCHANGED <<slot, reqs, nrpn, asked>>
 SetGainOffset(s, j, g, o) ==      \* setSlotSubGain + setSlotSubOffset + updateMapping
   /\ Tick /\ out' = <<>> /\ step' = [op |-> "map", s |-> s, j |-> j, gain |-> g, offset |-> o]
-  /\ sub[s][j].used
-  /\ LET pts == Points(sub[s][j].p, g, o) IN
-     sub' = [sub EXCEPT ![s][j].gain = g, ![s][j].offset = o, ![s][j].a = pts.a, ![s][j].b = pts.b]
+  /\ IF sub[s][j].used
+     THEN LET pts == Points(sub[s][j].p, g, o) IN
+          sub' = [sub EXCEPT ![s][j].gain = g, ![s][j].offset = o, ![s][j].a = pts.a, ![s][j].b = pts.b]
+     ELSE sub' = [sub EXCEPT ![s][j].gain = g, ![s][j].offset = o]      \* an unbound sub-automation remembers the numbers; they shape nothing until it is bound
   /\ UNCHANGED <<slot, reqs, nrpn, asked>>
+\* setSlotSubPath: bind sub-automation j of slot s to a parameter directly; unlike createBinding it KEEPS the gain and offset the
+\* sub-automation holds (the mapping is recomputed from them), never touches the learn queue, and rebinds a used sub-automation
+SetSubPath(s, j, p) ==
+  /\ Tick /\ out' = <<>> /\ step' = [op |-> "path", s |-> s, j |-> j, p |-> p]
+  /\ LET pts == Points(p, sub[s][j].gain, sub[s][j].offset) IN
+     sub' = [sub EXCEPT ![s][j] = [used |-> TRUE, p |-> p, gain |-> sub[s][j].gain, offset |-> sub[s][j].offset, a |-> pts.a, b |-> pts.b]]
+  /\ slot' = [slot EXCEPT ![s].used = TRUE]
+  /\ UNCHANGED <<reqs, nrpn, asked>>
 SetSlot(s, value8) ==
   /\ Tick /\ out' = SetSlotOut(s, value8) /\ step' = [op |-> "set", s |-> s, v |-> value8]
   /\ UNCHANGED <<slot, sub, reqs, nrpn, asked>>
@@ -134,6 +143,7 @@ Next == \/ \E s \in Slots, p \in Params, l \in BOOLEAN : CreateBinding(s, p, l)
         \/ \E s \in Slots : ClearSlot(s)
         \/ \E s \in Slots, j \in Subs : ClearSlotSub(s, j)
         \/ \E s \in Slots, j \in Subs, g \in Gains, o \in Offsets : SetGainOffset(s, j, g, o)
+        \/ \E s \in Slots, j \in Subs, p \in Params : SetSubPath(s, j, p)
         \/ \E s \in Slots, v \in Values : SetSlot(s, v)
         \/ \E c \in CCs, val \in {0, 127} : HandleCC(c, val)
 Spec == Init /\ [][Next]_vars
